@@ -39,6 +39,7 @@ class World:
         self.T = tf.initialization_problem
         self.t_orig = {"message_template": self.T.__dict__["message_template"], "title": self.T.__dict__["title"]}
         self.report = Report()
+        self.report2 = Report()          # a second Report object alive next to the first (e.g. a preview report)
 
         class F2(Formatter):
             def name(self, name):
@@ -179,6 +180,12 @@ class World:
                 key = "message_template" if a["attr"] == "template" else "title"
                 val = self.tpl_value(a["cls"], a["v"]) if a["attr"] == "template" else self.title_value(a["cls"], a["v"])
                 self.cls(a["cls"]).override(report=r, **{key: val})
+            elif op == "override2":
+                key = "message_template" if a["attr"] == "template" else "title"
+                val = self.tpl_value(a["cls"], a["v"]) if a["attr"] == "template" else self.title_value(a["cls"], a["v"])
+                self.cls(a["cls"]).override(report=self.report2, **{key: val})
+            elif op == "clear2":
+                self.report2.clear()
             elif op == "clear":
                 r.clear()
             elif op in ("context_clear", "context_keep"):
